@@ -16,6 +16,8 @@ import SlipVerif.Driver.Util
                                           ops: ( list  [ vector  ) close  ' quote  F #'  ` backquote  , comma  @ comma-at
                                                v value (string, character …)  n token t/nil  a other token
      tot sharp <decimal digits> A|R    -> ok plain | ok raise | ok alloc <n> | ok radix <b> | err fault
+     tot cursor <len> <ops>            -> ok done <indices joined by .|-> <pos> | ok raise <op index> | err fault <op index>
+                                          ops (comma separated): a next argument, s<n> ~n*, b<n> ~n:*, g<n> ~n@*  (n a decimal integer)
      tot sharpconsts                   -> ok <SharpOK> guard=<n> maxRank=<n> radix=<lo>..<hi>
    The tables are the ones regenerated from the sources (Gen/C09Reader, Gen/C09Format). -/
 namespace SlipVerif.Driver.Totality
@@ -72,6 +74,25 @@ def digitsOf? : List Char → Option (List Nat)
   | [] => some []
   | c :: cs =>
     if '0' ≤ c ∧ c ≤ '9' then (digitsOf? cs).map (fun ds => (c.toNat - 48) :: ds) else none
+
+def cursorGuards : SlipVerif.ReaderStack.CursorGuards :=
+  { checksLow := SlipVerif.Gen.C09Format.argIndexLowChecked == SlipVerif.Gen.C09Format.argIndexSites
+    checksHigh := SlipVerif.Gen.C09Format.argIndexHighChecked == SlipVerif.Gen.C09Format.argIndexSites }
+
+def curOpOf? (t : String) : Option SlipVerif.ReaderStack.CurOp :=
+  if t = "a" then some .next
+  else match t.toList with
+    | 's' :: r => (String.ofList r).toInt?.map (fun n => .move false false n)
+    | 'b' :: r => (String.ofList r).toInt?.map (fun n => .move true false n)
+    | 'g' :: r => (String.ofList r).toInt?.map (fun n => .move false true n)
+    | _ => none
+
+def curOpsOf? : List String → Option (List SlipVerif.ReaderStack.CurOp)
+  | [] => some []
+  | t :: ts =>
+    match curOpOf? t, curOpsOf? ts with
+    | some o, some os => some (o :: os)
+    | _, _ => none
 
 def afterTilde : List Nat → Option (List Nat)
   | [] => none
@@ -133,6 +154,16 @@ def handle (entry : String) (args : List String) : String :=
         | .radix b => s!"ok radix {b}"
         | .fault => "err fault"
     | _, _ => "bad-request sharp"
+  | "cursor", [len, ops] =>
+    match len.toNat?, curOpsOf? (ops.splitOn ",") with
+    | some n, some os =>
+      match SlipVerif.ReaderStack.runCursor cursorGuards n 0 0 [] os with
+      | .done taken pos =>
+        let t := if taken.isEmpty then "-" else ".".intercalate (taken.map toString)
+        s!"ok done {t} {pos}"
+      | .raise i => s!"ok raise {i}"
+      | .fault i => s!"err fault {i}"
+    | _, _ => "bad-request cursor"
   | "sharpconsts", [] =>
     s!"ok {SlipVerif.ReaderStack.SharpOK sharpConsts} guard={sharpConsts.guard} maxRank={sharpConsts.maxRank} radix={sharpConsts.radixLo}..{sharpConsts.radixHi}"
   | "blocksize", [] => s!"ok {SlipVerif.Gen.C09Reader.readBlockSize}"
